@@ -126,6 +126,19 @@ def extraOp (x : ExtraState) (mp : Position) (_sp : Spec.SPos) (op : String) (ar
     let m := match best em with | none => "bookbest absent" | some b => "bookbest move=" ++ toString (decodeBookMove mp b.move)
     let s := match specBest es with | none => "bookbest absent" | some b => "bookbest move=" ++ toString (decodeBookMove mp b.move)
     some (x, m, s)
+  else if op = "bookdist" then
+    -- the support of the random policy: decoded move ↦ summed weight of the records of this key (model's and spec's loaders)
+    let bs := hexBytes (args.getD 0 "-"); let key := parseHex (args.getD 1 "0")
+    let em := entriesFor (loadBook bs) key
+    let es := (specBook bs).filter (·.key = key)
+    let line (l : List BookEntry) : String :=
+      if l.isEmpty then "bookdist absent"
+      else
+        let pairs := l.map (fun e => (decodeBookMove mp e.move, e.weight))
+        let moves := (pairs.map (·.1)).eraseDups
+        let moves := moves.toArray.qsort (· < ·) |>.toList
+        "bookdist support" ++ moves.foldl (fun acc m => acc ++ " " ++ toString m ++ ":" ++ toString ((pairs.filter (·.1 = m)).foldl (fun a x => a + x.2) 0)) ""
+    some (x, line em, line es)
   else if op = "bookpick" then
     let bs := hexBytes (args.getD 0 "-"); let key := parseHex (args.getD 1 "0"); let r := argN args 3
     let em := entriesFor (loadBook bs) key
